@@ -40,6 +40,10 @@
   key choice and peer tag included, in every state (repaired code: `version`, `theirTag` and the key selected
   by `setKeyMatchingVersion` are put back); `…_fresh`: the conversation without a version that was the
   witness against the frame before that repair, now an instance of it.
+  `receiveUnit_discarded_fragment_frame`, `receiveUnit_out_of_sequence_fragment_unbound` (repaired code): the same
+  frame for every fragment of which nothing is kept (`fragDiscarded`), i.e. also for a legally numbered piece that
+  is out of sequence (`fragOutOfSeq`: neither a first piece nor the next piece of the stream being collected) —
+  there the context is forgotten (the abstract machine's `acceptStep`), everything else is as before.
 -/
 import Proofs.Frag
 import Proofs.FragRefine
@@ -245,5 +249,13 @@ example (K : Crypto) := receiveUnit_invalid_fragment_frame K 0 (strBytes "?OTR,x
   (by decide) (by decide) (by decide) (by decide) rfl
 example (K : Crypto) := receiveUnit_invalid_fragment_frame K 0 (strBytes "?OTR,00003,00002,x,") true exRecvV2
   (by decide) (by decide) (by decide) (by decide) rfl
+
+/-- every discarded fragment (rejected, illegally numbered, out of sequence): nothing changes but the logs, the injections handed out and the context, which is the abstract machine's -/
+theorem receiveUnit_discarded_fragment_frame : type_of% @Otr.receiveUnit_discarded_fragment_frame :=
+  @Otr.receiveUnit_discarded_fragment_frame
+
+/-- an out-of-sequence fragment: no plaintext, no error, context forgotten, version / key choice / peer tag as before -/
+theorem receiveUnit_out_of_sequence_fragment_unbound : type_of% @Otr.receiveUnit_out_of_sequence_fragment_unbound :=
+  @Otr.receiveUnit_out_of_sequence_fragment_unbound
 
 end Otr.C14
